@@ -3,11 +3,14 @@
    leftmost candidate with the maximal bonus (C04_best_pos) and its early exit is sound because no bonus
    exceeds Config::max_bonus (C04_max_bonus) - the clause that was false under the path configuration
    before the fix; the prefix bonus of the linear scorers lies in [0, 8] (C04_prefix_linear).
-   PARTIAL: "never above the true optimum" (C04_upper_stmt), the one-character optimum in its final
-   form (C04_single_stmt) and "never below the naive recurrence" need the DP invariant and are validated
-   by the brute-force oracle (all alignments, haystack <= 9) and the prefer_prefix on/off pairing. *)
+   C04_upper: the optimal matcher's score never exceeds the maximum of the scheme over all alignments
+   (the DP is NOT always optimal: "aaaAba"/"aba" scores 67 while [3;4;5] scores 68 - consistent with the
+   property); C04_single: for a one-character needle it equals that maximum.
+   PARTIAL: "never below the naive two-matrix recurrence" (Spec/Matching.naive_score) and the DP's
+   prefix-preference bounds are validated by the oracle (naive recurrence on every case inside the
+   documented limits; every input run with prefer_prefix off and on), not proved. *)
 From Coq Require Import NArith List Bool.
-From NV Require Import Model.Matcher Spec.Matching Spec.Statements Proofs.C05Facts Proofs.ScoreFacts.
+From NV Require Import Model.Matcher Spec.Matching Spec.Statements Proofs.C05Facts Proofs.ScoreFacts Proofs.DPSingle Proofs.DPScoreFacts.
 Import ListNotations.
 Local Open Scope N_scope.
 
@@ -19,6 +22,14 @@ Proof. exact C05Facts.C04_max_bonus. Qed.
 
 Theorem C04_prefix_linear : C04_prefix_linear_stmt.
 Proof. exact ScoreFacts.C04_prefix_linear. Qed.
+
+(* never above the maximum over ALL alignments (brute-force enumeration, proved complete) *)
+Theorem C04_upper : C04_upper_stmt.
+Proof. exact DPScoreFacts.C04_upper. Qed.
+
+(* one-character needle: the best-placed occurrence wins, for every configuration (incl. paths) *)
+Theorem C04_single : C04_single_stmt.
+Proof. exact DPSingle.C04_single. Qed.
 
 (* the matrix path is taken within the documented limits (100 KiB cells, needle 2048, haystack 65535):
    the translated guard of MatrixSlab::alloc is the documented one *)
@@ -33,4 +44,6 @@ Proof. vm_compute. reflexivity. Qed.
 Print Assumptions C04_best_pos.
 Print Assumptions C04_max_bonus.
 Print Assumptions C04_prefix_linear.
+Print Assumptions C04_upper.
+Print Assumptions C04_single.
 Print Assumptions C04_slab_guard.
